@@ -144,8 +144,11 @@ type fsRuntime struct {
 	hostVal interface{}
 }
 
+const defaultLimit = 250
+
 func newFSRuntime() *fsRuntime {
 	r := &fsRuntime{vm: otto.New()}
+	r.vm.SetStackDepthLimit(defaultLimit)
 	r.vm.Interrupt = make(chan func(), 2)
 	setRandom(r.vm, 7)
 	r.vm.Set("hpanic", func(call otto.FunctionCall) otto.Value {
@@ -343,17 +346,19 @@ func runCell(r *fsRuntime, c *FSCase, st *Stats) (v *Violation, reuse bool) {
 	for len(vm.Interrupt) > 0 {
 		<-vm.Interrupt
 	}
+	// unbounded recursion without a limit legitimately exhausts the Go stack (that
+	// is what the limit is for), so every cell runs under one
 	if c.Fault == "limit" {
 		vm.SetStackDepthLimit(c.K)
 	} else {
-		vm.SetStackDepthLimit(0)
+		vm.SetStackDepthLimit(defaultLimit)
 	}
 	val, err, panicked, pv := protectedRun(vm, src)
 	if !panicked && err == nil && c.Path == "@return" {
 		// the Value / Object accessors of the public API call back into the script
 		// (valueOf, toString, getters): they must return too
 		if av := valueAccessors(vm, val); av != "" {
-			vm.SetStackDepthLimit(0)
+			vm.SetStackDepthLimit(defaultLimit)
 			x := viol("C02", "go_panic_escaped", "%s fault=%s@%d: %s", cellKey(c), c.Fault, c.K, av)
 			x.Key = cellKey(c) + " accessor"
 			return x, false
@@ -373,7 +378,7 @@ func runCell(r *fsRuntime, c *FSCase, st *Stats) (v *Violation, reuse bool) {
 			}
 		}()
 	}
-	vm.SetStackDepthLimit(0)
+	vm.SetStackDepthLimit(defaultLimit)
 	if eventLogOn {
 		ev("cell", cellKey(c), c.Fault, c.K, panicked, fmt.Sprint(err), valStr(val))
 	}
@@ -625,6 +630,9 @@ func (e fsEngine) Exec(ci interface{}, st *Stats) (*Violation, interface{}, bool
 	if c.Fault == "strsweep" {
 		return execStrSweep(c, st)
 	}
+	if c.Fault == "opsweep" {
+		return execOpSweep(c, st)
+	}
 	if c.Fault == "apisweep" {
 		// uncaught throw of a value of this kind, and the Value/Object accessors
 		// on a returned value of this kind, under every fault
@@ -747,6 +755,60 @@ func (e fsEngine) Exec(ci interface{}, st *Stats) (*Violation, interface{}, bool
 }
 
 var collectMode bool
+
+// every operator and syntactic form applied to a value of each kind, one per
+// Run (no script try/catch that could mask a Go panic)
+var opForms = []string{
+	"new R", "new R(1,R)", "R()", "R(1,2)", "R.call(R)", "R.x", "R[0]", "R[R]", "R.x=1", "R[0]=R", "delete R.x", "delete R[0]", "'x' in R", "0 in R",
+	"R instanceof Object", "({}) instanceof R", "R instanceof R", "typeof R", "void R", "!R", "-R", "+R", "~R", "var q=R;q++", "var q=R;--q", "R+1", "R+'s'", "R+R", "R-1", "R*R", "R/2", "R%2",
+	"R<<1", "R>>1", "R>>>1", "R&1", "R|1", "R^R", "R<1", "R<=R", "R>R", "R==R", "R==1", "R=='1'", "R===R", "R!=null", "R&&1", "R||1", "R?1:2", "for(var k in R){}", "with(Object(R)){}", "with(R){}",
+	"switch(R){case R:break;case 1:}", "throw R", "[R,R].join()", "[R].concat(R)", "String(R)", "Number(R)", "Boolean(R)", "Object(R)", "JSON.stringify(R)", "JSON.stringify({a:R})", "Object.keys(Object(R))",
+	"R.toString()", "R.valueOf()", "R.constructor", "R.length", "R.prototype", "R.name", "R.caller", "R.arguments", "Object.getPrototypeOf(Object(R))", "Object.create(Object(R))", "Object.freeze(Object(R))",
+	"(function(){return this}).call(R)", "(function(){return arguments}).apply(null,Object(R))", "Function.prototype.apply.call(R,R,R)", "Function.prototype.bind.call(R,R)", "new (Function.prototype.bind.call(R,R))",
+	"isNaN(R)", "parseInt(R)", "parseFloat(R)", "encodeURIComponent(R)", "new Date(R)", "new RegExp(R)", "new Array(R)", "new Error(R)", "new String(R)", "new Number(R)", "Math.max(R,R)", "[3,1].sort(R)", "'a'.replace('a',R)", "'a'.split(R)",
+}
+
+func execOpSweep(c *FSCase, st *Stats) (*Violation, interface{}, bool) {
+	r := newFSRuntime()
+	for _, form := range opForms {
+		src := "(function(){var R=__mk('" + c.Recv + "');return (function(){" + asStatement(form) + "})()})()"
+		st.Runs++
+		st.Fault("operator_form")
+		val, err, panicked, pv := protectedRun(r.vm, src)
+		bad := ""
+		if panicked {
+			bad = fmt.Sprintf("Run panicked with %T: %v", pv, clip(fmt.Sprint(pv)))
+			r = newFSRuntime()
+		} else if err == nil {
+			bad = valueAccessors(r.vm, val)
+		}
+		if bad != "" {
+			x := viol("C02", "go_panic_escaped", "`%s` with R of kind %s: %s", form, c.Recv, bad)
+			x.Key = "op " + form + " kind " + c.Recv
+			if kf := isKnown(x); kf != nil {
+				st.Known[kf.Property+" "+kf.Key]++
+				continue
+			}
+			if collectMode {
+				st.Probes["COLLECT "+x.Class+" | "+x.Key+" | "+clip(x.Detail)]++
+				continue
+			}
+			return x, &FSCase{Engine: "faultsweep", Prog: src, Fault: "prop"}, true
+		}
+	}
+	st.NonTrivial++
+	st.Sig(hashStr("ops", c.Recv))
+	return nil, nil, true
+}
+
+func asStatement(form string) string {
+	for _, kw := range []string{"for(", "with(", "switch(", "throw ", "var "} {
+		if strings.HasPrefix(form, kw) {
+			return form
+		}
+	}
+	return "return " + form
+}
 
 // well-formed "special" strings; every prefix of each (a token cut short at an
 // arbitrary point) is fed, as a plain and as a UTF-16 backed string, to every
@@ -924,6 +986,7 @@ func (fsEngine) Enumerate(tier string) []interface{} {
 	for _, k := range fsKinds {
 		out = append(out, &FSCase{Engine: "faultsweep", Fault: "propsweep", Recv: k})
 		out = append(out, &FSCase{Engine: "faultsweep", Fault: "apisweep", Recv: k})
+		out = append(out, &FSCase{Engine: "faultsweep", Fault: "opsweep", Recv: k})
 	}
 	for i := range histOps {
 		out = append(out, &FSCase{Engine: "faultsweep", Fault: "history", From: i})
